@@ -426,7 +426,7 @@ def run(prop, tier):
     proof["trusted"] = [
         "formatter model Cli/Format.v written by hand from util.make_duration_formatter; the field arithmetic (int(seconds*1000) and the divmod chain) is translated from /repo on every run and proved equal to millis + fields (TieFmt.v); template handling and %S rendering are tied by correspondence (directed + random durations and templates); binary64 via Flocq",
         "option / keyword tables: AST extraction harness/py2coq/cli.py (fail-closed) compared with Cli/Options.v by reflexivity in CliTie.v on every run; argparse itself is trusted",
-        "end-to-end runs of auditok.cmdline.main in-process (time module of cmdline replaced by a fast clock, sys.stdin replaced); {timestamp}, -E/-p/-C/-I/-F/-B not exercised (no audio device / matplotlib here)",
+        "end-to-end runs of auditok.cmdline.main in-process (time module of cmdline replaced by a fast clock, sys.stdin replaced); {timestamp} exercised with --timestamp-format %Y only (the one stable field of the wall clock), -E/-p/-C/-I/-F/-B not exercised (no audio device / matplotlib here)",
         "extraction (ExtrOcamlBasic only) + OCaml driver, cross-checked by vm_compute on a sample",
     ]
     violation = None
